@@ -880,6 +880,8 @@ impl Formula {
                             .find(|candidate| {
                                 !term_variables.contains(candidate)
                                     && !formula_variables.contains(candidate)
+                                    && !variables.contains(candidate)
+                                    && *candidate != var
                             })
                             .unwrap();
 
